@@ -607,7 +607,7 @@ func c16Cases(full bool) []c16Case {
 }
 
 // c05Names is the resource-name alphabet shared by C05/C10/C16.
-var c05Names = []string{"a", "a b", " a", "a%20b", "100%", "a#b", "a?b", "a;b", "a+b", "a&b<c>", `a"b'c`, "a:b", "é", "日本", "~", ".h", `a\b`, "%2f", "a=b,c", "*", "a.", "..a", "A"}
+var c05Names = []string{"a", "a b", " a", "a%20b", "100%", "a#b", "a?b", "a;b", "a+b", "a&b<c>", `a"b'c`, "a:b", "é", "日本", "~", ".h", `a\b`, "%2f", "a=b,c", "*", "a.", "..a", "A", "j..doe"}
 
 func c16InputClass(c c16Case) string {
 	switch c.Prim {
